@@ -16,10 +16,10 @@ def gen_script(rng, tier):
     n_valid = rng.choice([0, 0, 1, 2, 3])
     n_metrics = rng.randint(0, 2)
     lines = [f'init {theta0} {opt} {n_train} {n_valid} {n_metrics}']
-    # plateaus / ties / adversarial trajectories: override some draws' losses (multiples of 6: exact means)
+    # plateaus / ties / adversarial trajectories: override some draws' losses (multiples of 12: exact means for 1..4 batches)
     if rng.random() < 0.6:
         train = n_valid == 0
-        vals = rng.choice([[30, 12, 12, 48, 12, 6, 6, 60], [6, 6, 6, 6], [60, 54, 48, 42, 36], [12, 60, 12, 0, 0, 18]])
+        vals = rng.choice([[60, 24, 24, 96, 24, 12, 12, 120], [12, 12, 12, 12], [120, 108, 96, 84, 72], [24, 120, 24, 0, 0, 36]])
         per = n_train if train else n_valid
         for e, v in enumerate(vals):
             for b in range(per):
